@@ -241,6 +241,20 @@ Proof.
   - apply update_keeps_sorted; assumption.
 Qed.
 
+Lemma map_fst_combine' {A B} : forall (l1 : list A) (l2 : list B),
+  length l1 = length l2 -> map fst (combine l1 l2) = l1.
+Proof.
+  induction l1 as [|a l1 IH]; intros [|b l2] H; try reflexivity; try discriminate.
+  cbn [combine map fst]. f_equal. apply IH. injection H as H. exact H.
+Qed.
+
+Lemma map_snd_combine' {A B} : forall (l1 : list A) (l2 : list B),
+  length l1 = length l2 -> map snd (combine l1 l2) = l2.
+Proof.
+  induction l1 as [|a l1 IH]; intros [|b l2] H; try reflexivity; try discriminate.
+  cbn [combine map snd]. f_equal. apply IH. injection H as H. exact H.
+Qed.
+
 Lemma PI_replace_all pi : forall ons l,
   PI pi l -> NoDup (map fst ons) -> NoDup (map snd ons) ->
   (forall o n, In (o, n) ons -> has_key pi n /\ key pi n = key pi o /\ In o l /\ ~ In n l) ->
